@@ -3,7 +3,7 @@
    independent statement of "addressed instance / exactly / nothing else": theories/AttrOps/Spec.v. *)
 From Coq Require Import ZArith List String Bool.
 From PKGen Require Import AttrRuleTable.
-From PK Require Import AttrOps.Model AttrOps.Spec AttrOps.Proofs AttrOps.ExactProofs AttrOps.HistoryProofs AttrOps.ListLemmas AttrOps.GetAttrProofs.
+From PK Require Import AttrOps.Model AttrOps.Spec AttrOps.Proofs AttrOps.ExactProofs AttrOps.HistoryProofs AttrOps.ListLemmas AttrOps.GetAttrProofs AttrOps.BatchProofs.
 Import ListNotations.
 Open Scope string_scope.
 Open Scope Z_scope.
@@ -125,6 +125,45 @@ Theorem repeated_front_deletion : forall k (l : list aval), Nat.iter k (remove_n
 Proof. exact (@iter_remove_front aval). Qed.
 Print Assumptions repeated_front_deletion.
 
+(* --- batches: attribute operations without a Unique Identifier act on the object the ID placeholder names.
+       [trace] lists the executed items of one request with the (store, placeholder) state before and after each;
+       the placeholder starts as None and is written only by the four creating operations *)
+Theorem placeholder_names_last_created : forall v user cont b st e, In e (trace v user cont st b) ->
+  exists pre post, b = (pre ++ e_item e :: post)%list /\ snd (e_pre e) = last_created (snd st) pre /\
+                   snd (e_post e) = ph_update (snd (e_pre e)) (e_item e).
+Proof. exact trace_placeholder. Qed.
+Print Assumptions placeholder_names_last_created.
+
+Theorem batch_protected_never_change : forall v user cont b st e uid r,
+  In e (trace v user cont st b) -> e_item e = IAttr uid r ->
+  map protected (fst (e_post e)) = map protected (fst (e_pre e)) /\ snd (e_post e) = snd (e_pre e).
+Proof. exact BatchProofs.batch_protected_never_change. Qed.
+Print Assumptions batch_protected_never_change.
+
+(* the addressed object: the explicit identifier, or else the identifier issued by the last creating item before it *)
+Theorem batch_success_exact : forall v user cont b st e uid r,
+  In e (trace v user cont st b) -> e_item e = IAttr uid r -> e_res e = RAttr Success ->
+  exists pre post u o o' ta,
+    b = (pre ++ IAttr uid r :: post)%list /\
+    resolve uid (last_created (snd st) pre) = Some u /\
+    find_obj u (fst (e_pre e)) = Some o /\ allowed user o = true /\
+    addressed v o r = Some ta /\ meets ta o o' /\
+    only_object_changed u o o' (fst (e_pre e)) (fst (e_post e)) /\ snd (e_post e) = snd (e_pre e).
+Proof. exact BatchProofs.batch_success_exact. Qed.
+Print Assumptions batch_success_exact.
+
+Theorem batch_failure_frame : forall v user cont b st e uid r x,
+  In e (trace v user cont st b) -> e_item e = IAttr uid r -> e_res e = RAttr (Failed x) -> e_post e = e_pre e.
+Proof. exact BatchProofs.batch_failure_frame. Qed.
+Print Assumptions batch_failure_frame.
+
+(* without a creating item in the request an identifier-less attribute operation finds nothing *)
+Theorem no_creating_item_no_placeholder : forall v user cont b s e r,
+  In e (trace v user cont (s, None) b) -> e_item e = IAttr None r ->
+  (forall news u, ~ In (ICreating news u) b) -> e_res e = RAttr (Failed RItemNotFound) \/ e_res e = RAttr (Failed ROpNotSupported).
+Proof. exact BatchProofs.no_creating_item_no_placeholder. Qed.
+Print Assumptions no_creating_item_no_placeholder.
+
 (* --- the hypotheses above are satisfiable by non-trivial states (the model really succeeds and really fails) *)
 Definition ex_key : obj :=
   mkObj 1 2 (Some 1) "alice" "default" (Some 12) (Some 3) (Some 128) 1600000000 None
@@ -195,3 +234,18 @@ Example ex_all_failed_history :
   all_failed ex_store [EvAttr (1, 2) "bob" (Some 1) (RDelete (mkDel (Some "Name") None None None));
                        EvAttr (2, 0) "alice" (Some 1) (RSet (Some (Some "State", VInt 2)))].
 Proof. simpl. split; [eexists; vm_compute; reflexivity|]. split; [eexists; vm_compute; reflexivity|exact I]. Qed.
+
+(* batch [Create; Get of another object; ModifyAttribute without identifier]: only the created object changes *)
+Definition ex_new : obj :=
+  mkObj 3 2 (Some 1) "alice" "default" (Some 12) (Some 3) (Some 256) 1600000000 None [VText "n0"; VText "n1"] [VText "g"] [] false.
+Example ex_placeholder_batch :
+  run_batch (1, 2) "alice" false ex_store
+    [ICreating [ex_new] 3; IOther (fun s => s); IAttr None (RModify (mkMod (Some ("Name", Some 1, VText "q")) None None))]
+  = (([ex_key; ex_other; mset FNames [VText "n0"; VText "q"] ex_new], Some 3), [ROk; ROk; RAttr Success]).
+Proof. vm_compute. reflexivity. Qed.
+
+Example ex_no_placeholder_without_creator :
+  snd (run_batch (1, 2) "alice" true ex_store
+    [IOther (fun s => s); IAttr None (RDelete (mkDel (Some "Name") None None None)); IAttr (Some 1) (RDelete (mkDel (Some "Name") None None None))])
+  = [ROk; RAttr (Failed RItemNotFound); RAttr Success].
+Proof. vm_compute. reflexivity. Qed.
